@@ -2,7 +2,7 @@
    a case is an operation name and a list of generic arguments; the answer is a generic
    output value.  The OCaml driver (eval/driver.ml) only parses / prints these types. *)
 From Coq Require Import String.
-From ArrRs Require Import Base Arr Index Axis Broadcast Lift Split Reduce.
+From ArrRs Require Import Base Arr Index Axis Broadcast Lift Split Reduce Sort.
 Open Scope string_scope.
 Open Scope list_scope.
 
@@ -270,10 +270,8 @@ Definition zidx (g1 : list Z -> res nat) (args : list arg) : out :=
   | [AA s e; ax; AZ kd] =>
     match optz ax with Some ax => out_res onarr (index_reduce 0%Z 0 g1 (mka s e) ax (kd =? 1)%Z) | None => OBad end
   | _ => OBad end.
-Definition z_argmax1 (l : list Z) : res nat :=
-  let* m := z_max1 l in match position (Z.eqb m) l with Some i => Ok i | None => Panic end.
-Definition z_argmin1 (l : list Z) : res nat :=
-  let* m := z_min1 l in match position (Z.eqb m) l with Some i => Ok i | None => Panic end.
+Definition z_argmax1 (l : list Z) : res nat := arg_extreme1 Z.ltb Z.eqb 0%Z true l.
+Definition z_argmin1 (l : list Z) : res nat := arg_extreme1 Z.ltb Z.eqb 0%Z false l.
 (* lanes as numbers: the flat input positions of a lane in base 1000 (most significant = first position) *)
 Definition encode_lane (l : list Z) : Z := fold_left (fun acc x => acc * 1000 + x + 1)%Z l 0%Z.
 Definition iota_like (s e : list Z) : arr Z := mk (zs (seq 0 (List.length e))) (nats s).
@@ -322,8 +320,30 @@ Definition table_reduce : list (string * (list arg -> out)) :=
        | [AA s e; AZ parts] => out_res oarrs (dsplit 0%Z (mka s e) (Z.to_nat parts)) | _ => OBad end)
   ].
 
+(* ---- C10: sorting ---- *)
+Definition kind_of (a : arg) : option (res sort_kind) :=
+  match a with
+  | AN => Some (Ok Quicksort)
+  | AZ 0 => Some (Ok Quicksort) | AZ 1 => Some (Ok Mergesort) | AZ 2 => Some (Ok Heapsort) | AZ 3 => Some (Ok Stable)
+  | AS s => Some (parse_kind s)
+  | _ => None
+  end.
+
+Definition table_sort : list (string * (list arg -> out)) :=
+  [ ("sort", fun args => match args with
+       | [AA s e; ax; k] => match optz ax, kind_of k with
+           | Some ax, Some k => orarr (sort_arr Z.ltb 0%Z (mka s e) ax k) | _, _ => OBad end
+       | _ => OBad end)
+  ; ("argsort", fun args => match args with
+       | [AA s e; ax; k] => match optz ax, kind_of k with
+           | Some ax, Some k => out_res onarr (argsort_arr Z.ltb Z.eqb 0%Z (mka s e) ax k) | _, _ => OBad end
+       | _ => OBad end)
+  ; ("unique", fun args => match args with
+       | [AA s e; AN] => orarr (unique1 Z.ltb Z.eqb (mka s e)) | _ => OBad end)
+  ].
+
 Definition table : list (string * (list arg -> out)) :=
-  table_index ++ table_axis ++ table_broadcast ++ table_ew2 ++ table_ew1 ++ table_ops ++ table_reduce.
+  table_index ++ table_axis ++ table_broadcast ++ table_ew2 ++ table_ew1 ++ table_ops ++ table_reduce ++ table_sort.
 
 Fixpoint lookup (name : string) (t : list (string * (list arg -> out))) : option (list arg -> out) :=
   match t with
